@@ -27,15 +27,42 @@ def listenerUsageCalls : List String := ["addr.Network, addr.JoinHostPort(0) | s
     field or assignment) with what the function returns: the parents of the request contexts -/
 def httpServerContextFields : List String := ["app.go ConnContext: func returning context.WithValue(ctx,ConnCtxKey,c)", "server.go server.ConnContext = func returning f(baseConnContextFunc(ctx,c),c)", "server.go server.ConnContext = f"]
 
+/-- modules/caddyhttp/app.go (*App).start: every `if` whose body calls `.Listen(` (outermost first), followed by
+    the definitions inside start of the identifiers its condition names -/
+def httpListenGuards : List String := ["if h1ok||h2ok&&useTLS||h2cok", "h1ok := present protocolsUnique[\"h1\"]", "h2ok := present protocolsUnique[\"h2\"]", "useTLS := len(srv.TLSConnPolicies)>0&&int(listenAddr.StartPort+portOffset)!=app.httpPort()", "h2cok := present protocolsUnique[\"h2c\"]"]
+
+/-- modules/caddyhttp/app.go (*App).Validate: how the key of the map of claimed listen addresses is made, looked up
+    and stored: `what | enclosing loops` in source order -/
+def httpRepeatedListenKey : List String := ["addr := caddy.JoinNetworkAddress(listenAddr.Network,listenAddr.Host,strconv.FormatUint(uint64(listenAddr.StartPort+i),10)) | range app.Servers; range srv.Listen; for i<listenAddr.PortRangeSize()", "lookup lnAddrs[addr] | range app.Servers; range srv.Listen; for i<listenAddr.PortRangeSize()", "store lnAddrs[addr] | range app.Servers; range srv.Listen; for i<listenAddr.PortRangeSize()"]
+
 /-- every name passed as a string literal to RegisterDirective / RegisterHandlerDirective in non-test files of the module (sorted) -/
 def registeredDirectives : List String := ["abort", "acme_server", "basic_auth", "basicauth", "bind", "copy_response", "copy_response_headers", "encode", "error", "file_server", "forward_auth", "fs", "handle", "handle_errors", "handle_path", "header", "intercept", "invoke", "log", "log_append", "log_name", "log_skip", "map", "method", "metrics", "php_fastcgi", "push", "redir", "request_body", "request_header", "respond", "reverse_proxy", "rewrite", "root", "route", "skip_log", "templates", "tls", "tracing", "try_files", "uri", "vars"]
 
 /-- … and to RegisterGlobalOption (sorted) -/
 def registeredGlobalOptions : List String := ["acme_ca", "acme_ca_root", "acme_dns", "acme_eab", "admin", "auto_https", "cert_issuer", "cert_lifetime", "debug", "default_bind", "default_sni", "dns", "ech", "email", "events", "fallback_sni", "filesystem", "grace_period", "http_port", "https_port", "key_type", "local_certs", "log", "metrics", "ocsp_interval", "ocsp_stapling", "on_demand_tls", "order", "persist_config", "pki", "preferred_chains", "renew_interval", "servers", "shutdown_delay", "skip_install_trust", "storage", "storage_check", "storage_clean_interval"]
 
-/-- modules/caddyhttp/autohttps.go automaticHTTPSPhase1: every `range` statement in source order: (`sortedkeys`, m) for
-    `range slices.Sorted(maps.Keys(m))`, else (`plain`, the ranged expression) -/
-def autoHTTPSRanges : List (String × String) := [("plain", "srvNames"), ("plain", "srv.Routes"), ("plain", "route.MatcherSets"), ("plain", "matcherSet"), ("plain", "*hm"), ("plain", "serverDomainSet"), ("plain", "serverDomainSet"), ("plain", "srv.Listen"), ("plain", "serverDomainSet"), ("sortedkeys", "uniqueDomainsForCerts"), ("plain", "app.tlsApp.Automation.Policies"), ("plain", "ap.Subjects()"), ("sortedkeys", "redirDomains"), ("plain", "redirDomains[domain]"), ("sortedkeys", "domainsByAddr"), ("plain", "domains"), ("sortedkeys", "redirServers"), ("plain", "srvNames")]
+/-- modules/caddyhttp: every iteration of a map in code reachable from (*App).automaticHTTPSPhase1 (the function,
+    its function literals and, transitively, the functions / methods of the package it calls statically), by go/types:
+    (kind, origin, effects, calls). kind: `sortedkeys` = slices.Sorted(maps.Keys(m)) (ranged or not), `map` = `range m`
+    with m of map type, `mapseq` = maps.Keys/Values/All(m) not directly inside slices.Sorted, `seq` = a range over any
+    other iterator function. origin: the map by data flow (parameters traced to the identifiers passed by the callers):
+    `field T.F : type`, `var : type` (a local variable — its name is not part of the fact), `param : type`, `expr : type`.
+    For `map` / `mapseq` / `seq` ranges: effects = what the loop body writes outside itself: `keyed` (m2[k] = … / delete(m2, k)
+    with k the range key), `append>sinks` (x = append(x, …) to an outer slice, with every other use of x in the function:
+    `arg:callee` or `use`), `assign`, `return`, `break`, `goto`; calls = the statically resolved callees in the body
+    (`dynamic` for a call through a function value or interface). `[("LOAD-FAILED", …)]` when the package does not type-check. -/
+def autoHTTPSRanges : List (String × String × List String × List String) := [
+  ("sortedkeys", "field App.Servers : map[string]*Server", [], []),
+  ("map", "var : map[string]struct{}", ["append>arg:(*caddytls.TLS).RegisterServerNames"], []),
+  ("map", "var : map[string]struct{}", ["keyed"], ["(*caddytls.TLS).HasCertificateForSubject", "(*zap.Logger).Info", "(*zap.Logger).Warn", "certmagic.SubjectQualifiesForCert", "slices.Contains", "strings.Contains", "strings.Count", "strings.Trim", "zap.String"]),
+  ("map", "var : map[string]struct{}", ["keyed"], ["(*caddyhttp.App).httpsPort"]),
+  ("sortedkeys", "var : map[string]struct{}", [], []),
+  ("sortedkeys", "var : map[string][]caddy.NetworkAddress", [], []),
+  ("sortedkeys", "var : map[string][]string", [], []),
+  ("sortedkeys", "var : map[string][]Route", [], []),
+  ("sortedkeys", "var : map[string]struct{}", [], []),
+  ("map", "field ServerLogConfig.LoggerNames : map[string]StringArray", ["keyed"], []),
+  ("map", "var : map[string]any", ["append>use", "return"], ["fmt.Errorf"])]
 
 /-- modules/caddyhttp/fileserver/staticfiles.go: the literals of `var defaultIndexNames` -/
 def defaultIndexNames : List String := ["index.html", "index.txt"]
